@@ -783,7 +783,11 @@ func (x *rsExec) doStart(step int, op rsOp) {
 	x.checkAfterStep(step, es)
 }
 
-func (x *rsExec) doPair(step int, name string, key []byte, del bool) {
+func (x *rsExec) doPair(step int, name string, key []byte, del bool) { x.doPairAs(step, name, key, del, false) }
+
+// doPairAs: self = the pairing names the accessory's own device id. Such a request is refused (F16 repair): the
+// controller returns an error (the endpoint answers 500 and emits no event) and nothing changes.
+func (x *rsExec) doPairAs(step int, name string, key []byte, del bool, self bool) {
 	database, err := dbFor(x.dir)
 	if err != nil {
 		fatal("db: %v", err)
@@ -800,7 +804,14 @@ func (x *rsExec) doPair(step int, name string, key []byte, del bool) {
 	}
 	in.SetString(pair.TagUsername, name)
 	msg, pan := safely(func() {
-		if _, err := pair.NewPairingController(database).Handle(in); err != nil {
+		_, err := pair.NewPairingController(database).Handle(in)
+		if self {
+			if err == nil {
+				x.violate("a pairing request that names the accessory's own device id is not refused", step, "error (HTTP 500), nothing stored or removed", "accepted")
+			}
+			return
+		}
+		if err != nil {
 			panic(err)
 		}
 		if x.t != nil { // what endpoint.Pairing does after the controller: emit through the emitter the transport gave it
@@ -829,19 +840,11 @@ func (x *rsExec) run() {
 			delete(x.expCtl, op.Ctl)
 			x.doPair(step, ctlName(op.Ctl), nil, true)
 		case "pairself":
-			if x.cut < 0 {
-				x.cut = len(x.segs)
-			}
-			x.tainted = true
 			x.toks = append(x.toks, fmt.Sprintf("P:D:%d", op.Key))
-			x.doPair(step, x.devID, ctlKey(op.Key), false)
+			x.doPairAs(step, x.devID, ctlKey(op.Key), false, true)
 		case "unpairself":
-			if x.cut < 0 {
-				x.cut = len(x.segs)
-			}
-			x.tainted = true
 			x.toks = append(x.toks, "U:D")
-			x.doPair(step, x.devID, nil, true)
+			x.doPairAs(step, x.devID, nil, true, true)
 		case "wipe-version", "wipe-hash":
 			file, tok := "version", "W:v"
 			if op.Op == "wipe-hash" {
